@@ -23,6 +23,8 @@ import (
 // twin runtime that only received the effects whose completion probes fired.
 // The contexts the evaluations run under, when those end, and the definitions
 // that outlive them are the second dimension of a history: see c05_ctx.go.
+// The cases after the histories sweep every limit over a window of values for
+// generated recursion shapes (which push trips the limit): see c05_sweep.go.
 
 func init() {
 	fw.Register(&fw.Prop{
@@ -32,7 +34,8 @@ func init() {
 			"a random subset failing by 29 fault kinds incl. a step budget exhausted at an enumerated step index, cancellation at an enumerated step index and a real context cancelled by the host at an enumerated effect; " +
 			"evaluations define functions, closures and macros (bodies through special operators and re-entrant builtins) under scripted and real contexts (WithCancel, WithDeadline, children of a parent) that end mid-evaluation, right after the return or later in the history, and later steps call them through every entry point without a context or under a fresh one; " +
 			"invariants asserted after every return, no context-cancelled condition out of an evaluation whose own context is absent or live, no question put to the context of a finished evaluation, and a context-free probe program (prints and calls every definition) compared with a twin runtime that replays only completed effects. " +
-			"distinct_nontrivial counts distinct (entry point, fault kind, fault position class, outcome condition) combinations observed",
+			"After the histories, limit sweeps: generated recursion shapes (cycles of 1-3 functions, the recursive call wrapped in up to four forms drawn from functions, special operators, user macros, builtin macros and callbacks) fail in one runtime under EVERY value of a 13-wide window of one limit (physical height, logical height, evaluator nesting, tail iterations, macro expansion depth; several window positions incl. very small limits), through every entry point, bare / in argument position / swallowed / under a macro or a callback, so that the refused push is a function frame, an operator frame and a macro frame in turn; same assertions and twin probe after every return; a scout runtime labels which frame the physical limit refuses. " +
+			"distinct_nontrivial counts distinct (entry point, fault kind, fault position class, outcome condition) combinations observed, plus (limit, entry point, surrounding form, refused frame kind, outcome) of the sweeps",
 		Assumptions: []string{
 			"effects in the workload are atomic statements each followed by a completion probe, so 'completed' is read off the effect trace",
 			"the twin runtime is driven through plain LoadString without faults",
